@@ -1,0 +1,21 @@
+//go:build verif
+
+// Contracts for the deductive verifier in /verif (gocv); comments only, see
+// ../../verif_contracts.go.
+
+package main
+
+// ---------------------------------------------------------------------------- C07 / C08
+
+//@ func writeWithTmpFile
+//@   prop C07 C08
+//@   safety none
+//@   ghost@entry $last = nil
+//@   ghost@after:writeInplace $last = $r1
+//@   ghost@entry $attempts = 0
+//@   ghost@after:writeInplace $attempts = $attempts + 1
+//# the destination is only ever touched by the final rename, and only after assembly succeeded
+//@   oncall Rename: requires $attempts == 1 && $last == nil && $arg1 == name
+//@   oncall Remove: requires $arg0 != name
+//@   oncall writeInplace: requires $arg1 != name
+//@   ensures err == nil ==> $attempts == 1 && $last == nil
